@@ -1,6 +1,7 @@
 (* Protocol entry point of the extracted model: one command + hex arguments in, one JSON line out. *)
 From Coq Require Import String Ascii List ZArith NArith Bool.
 From SDP Require Import Base PyStr Regex Json Codec LR RealTables Lexer Actions Parse Engine Seq Output Pre Api Entity Table Alter.
+From SDP Require TypeDom.
 Import ListNotations.
 Open Scope string_scope.
 
@@ -98,6 +99,14 @@ Definition dispatch (cmd : string) (args : list string) : string :=
         JObj [("wf", JBool (Alter.wf (String.eqb norm "1") a));
               ("lexemes", JArr (map (fun lx => JArr [JStr (fst lx); JStr (snd lx)]) (Alter.lexemes a)));
               ("denote", json_of_pyval (Alter.denote (String.eqb norm "1") a))]
+      end
+  | "td_spec", norm :: rest =>
+      match TypeDom.decl_of_args rest with
+      | None => JObj [("unsupported", JStr "bad type/domain args")]
+      | Some d =>
+        JObj [("wf", JBool (TypeDom.wf (String.eqb norm "1") d));
+              ("lexemes", JArr (map (fun lx => JArr [JStr (fst lx); JStr (snd lx)]) (TypeDom.lexemes d)));
+              ("denote", json_of_pyval (TypeDom.denote (String.eqb norm "1") d))]
       end
   | "seq_spec", norm :: rest =>
       match seq_of_args rest with
